@@ -8,11 +8,13 @@ import (
 	"github.com/ipfs/go-cid"
 	"github.com/libp2p/go-libp2p/core/crypto"
 
+	"github.com/ucan-wg/go-ucan/pkg/args"
 	"github.com/ucan-wg/go-ucan/token"
 	"github.com/ucan-wg/go-ucan/token/delegation"
 	"github.com/ucan-wg/go-ucan/token/invocation"
 
 	"verifharness/engine"
+	"verifharness/fixtures"
 )
 
 type sealer interface {
@@ -199,6 +201,128 @@ func c07Sub(algs func(tier string) []string, d func(tier string) int) *engine.Su
 	}
 }
 
+// ---- tokens built from shared caller-owned inputs ----
+
+type c07SharedCase struct {
+	BaseKeys int   `json:"base_keys"` // number of keys in the shared *args.Args (built by appending: spare capacity at 3, 5, 6, 7)
+	Extra    []int `json:"extra"`     // per token: how many further WithArgument options follow WithArguments(base)
+	Order    []int `json:"order"`     // order in which the tokens are sealed, after all were constructed
+}
+
+func (c *c07SharedCase) Weight() int { return c.BaseKeys + len(c.Extra) }
+
+func c07SharedSub() *engine.Sub {
+	build := func(base *args.Args, idx, extra int) (*invocation.Token, error) {
+		k := fixtures.Get("ed25519", 0)
+		opts := []invocation.Option{invocation.WithNonce([]byte("0123456789ab")), invocation.WithoutInvokedAt(), invocation.WithArguments(base)}
+		for e := 0; e < extra; e++ {
+			opts = append(opts, invocation.WithArgument(fmt.Sprintf("t%d-extra%d", idx, e), idx*10+e))
+		}
+		return invocation.New(k.DID, otherPrincipal(k, 1), "/a", []cid.Cid{cidPool[0]}, opts...)
+	}
+	mkBase := func(n int) *args.Args {
+		a := args.New()
+		for i := 0; i < n; i++ {
+			if err := a.Add(fmt.Sprintf("base%d", i), i); err != nil {
+				panic(err)
+			}
+		}
+		return a
+	}
+	return &engine.Sub{
+		Name: "shared-constructor-inputs",
+		Rule: "two or three invocations constructed from ONE caller-owned *args.Args (0..8 keys, built by appending, so its key slice has spare capacity at some sizes) through WithArguments, each followed by 0..2 WithArgument options of its own; all are constructed first, then sealed in every order and unsealed: every token - as constructed, and as decoded - has exactly the fields of the same token built from a private copy of the inputs, and the shared Args value itself is unchanged; non-trivial = all",
+		Bound: func(string) string { return "base of 0..8 keys x 2..3 tokens x 0..2 extra arguments each x every sealing order" },
+		Gen: func(tier string, emit func(any) bool) {
+			perms := map[int][][]int{2: {{0, 1}, {1, 0}}, 3: {{0, 1, 2}, {0, 2, 1}, {1, 0, 2}, {1, 2, 0}, {2, 0, 1}, {2, 1, 0}}}
+			for bk := 0; bk <= 8; bk++ {
+				for n := 2; n <= 3; n++ {
+					tot := 1
+					for i := 0; i < n; i++ {
+						tot *= 3
+					}
+					for x := 0; x < tot; x++ {
+						ex := make([]int, n)
+						y := x
+						for i := range ex {
+							ex[i] = y % 3
+							y /= 3
+						}
+						for _, o := range perms[n] {
+							if !emit(&c07SharedCase{BaseKeys: bk, Extra: ex, Order: o}) {
+								return
+							}
+						}
+					}
+				}
+			}
+		},
+		NewCase: func() any { return &c07SharedCase{} },
+		Run: func(ctx *engine.Ctx, c any) {
+			cs := c.(*c07SharedCase)
+			ctx.States(1)
+			ctx.Nontrivial(1)
+			key := fixtures.Get("ed25519", 0)
+			shared := mkBase(cs.BaseKeys)
+			sharedBefore := fmt.Sprint(shared.Keys) + shared.String()
+			var toks []*invocation.Token
+			var want []TokView
+			for i, e := range cs.Extra {
+				t, err := build(shared, i, e)
+				ref, err2 := build(mkBase(cs.BaseKeys), i, e)
+				ctx.Eval(2)
+				if err != nil || err2 != nil {
+					ctx.Outcome("constructor-rejected")
+					ctx.Failf(cs, "shared-inputs/constructor-fails", "constructing token %d from the shared arguments fails: %v / %v", i, err, err2)
+					return
+				}
+				toks = append(toks, t)
+				want = append(want, ViewOf(ref))
+			}
+			for i, t := range toks {
+				if d := DiffViews(want[i], ViewOf(t)); len(d) > 0 {
+					ctx.Outcome("field-mismatch")
+					ctx.Failf(cs, "shared-inputs/constructed-token-differs:"+strings.Join(d, "+"), "token %d built from shared arguments differs from the one built from a private copy on %v after the other tokens were constructed: %+v vs %+v", i, d, ViewOf(t), want[i])
+					return
+				}
+			}
+			for _, i := range cs.Order {
+				var sealed []byte
+				var err error
+				ctx.Eval(2)
+				ctx.Trans(1)
+				if pan, _ := callNoPanic(func() { sealed, _, err = toks[i].ToSealed(key.Priv) }); pan != nil {
+					ctx.Outcome("seal-panics")
+					ctx.Failf(cs, "shared-inputs/seal-panics", "sealing token %d built from shared arguments panics: %v", i, pan)
+					return
+				}
+				if err != nil {
+					ctx.Outcome("seal-error")
+					ctx.Failf(cs, "shared-inputs/seal-fails", "sealing token %d built from shared arguments fails: %v", i, err)
+					return
+				}
+				got, _, err := invocation.FromSealed(sealed)
+				if err != nil {
+					ctx.Outcome("unseal-error")
+					ctx.Failf(cs, "shared-inputs/unseal-fails", "token %d built from shared arguments does not unseal: %v", i, err)
+					return
+				}
+				if d := DiffViews(want[i], ViewOf(got)); len(d) > 0 {
+					ctx.Outcome("field-mismatch")
+					ctx.Failf(cs, "shared-inputs/decoded-token-differs:"+strings.Join(d, "+"), "token %d built from shared arguments decodes with other fields (%v) than the one built from a private copy", i, d)
+					return
+				}
+			}
+			if after := fmt.Sprint(shared.Keys) + shared.String(); after != sharedBefore {
+				ctx.Outcome("shared-input-changed")
+				ctx.Failf(cs, "shared-inputs/caller-args-changed", "the caller's Args value changed while tokens were built from it: %s -> %s", sharedBefore, after)
+				return
+			}
+			ctx.Outcome("roundtrip-ok")
+		},
+	}
+}
+
 func C07() *engine.Check {
 	algs := func(tier string) []string {
 		if tier == "thorough" {
@@ -210,7 +334,7 @@ func C07() *engine.Check {
 	return &engine.Check{
 		Property: "C07",
 		Level:    "model_checking",
-		Subs:     []*engine.Sub{c07Sub(algs, d)},
+		Subs:     []*engine.Sub{c07Sub(algs, d), c07SharedSub()},
 		Assumptions: []string{
 			"fixture keys (one per algorithm, committed) stand for 'every generatable key'; C16 covers key-to-DID conversion over more keys",
 			"non-finite floats are outside the property's premise and not in the alphabet",
